@@ -1480,6 +1480,57 @@ def translate_persist(src_dir: str) -> str:
     return ''.join(out)
 
 
+# ---- PGMCompiler.close (C19 / C08): which file is written, which directory is created first
+_CL_MKDIR = ("If(test=UnaryOp(op=Not(), operand=Call(func=Attribute(value=Name(id='exp_dir'), attr='is_dir'), args=[], keywords=[])), body=[Expr(value=Call(func=Attribute("
+             "value=Name(id='exp_dir'), attr='mkdir'), args=[], keywords=[keyword(arg='parents', value=Constant(value=True)), keyword(arg='exist_ok', value=Constant(value=True))]))], orelse=[])")
+_CL_WRITE = ("With(items=[withitem(context_expr=Call(func=Name(id='open'), args=[Name(id='pgm_filename'), Constant(value='w')], keywords=[]), optional_vars=Name(id='f'))], "
+             "body=[Expr(value=Call(func=Attribute(value=Name(id='f'), attr='write'), args=[Call(func=Attribute(value=Constant(value=''), attr='join'), args=[Attribute("
+             "value=Name(id='self'), attr='_instructions')], keywords=[])], keywords=[]))])")
+_CL_CLEAR = re.compile(r"Expr\(value=Call\(func=Attribute\(value=Attribute\(value=Name\(id='self'\), attr='(_instructions|_dvars)'\), attr='clear'\), args=\[\], keywords=\[\]\)\)")
+
+
+def _h_cl(tr, e, env):
+    r = _h_pa(tr, e, env)
+    if r is not None:
+        return r
+    if isinstance(e, ast.BinOp) and isinstance(e.op, ast.Div) and isinstance(e.left, ast.Name) and isinstance(e.right, ast.Name):
+        return [], f'(pjoin {cname(e.left.id)} {cname(e.right.id)})'
+    return None
+
+
+def _s_cl(tr, s, rest, env, tail):
+    d = dump(s)
+    if d == _CL_MKDIR:
+        return f'(if is_dir__ exp_dir then ret tt else cl_mkdirs exp_dir) ;;; {tr.T(rest, env, tail)}'
+    if d == _CL_WRITE:
+        return f'cl_open pgm_filename ;;; {tr.T(rest, env, tail)}'
+    if _CL_CLEAR.fullmatch(d):
+        return tr.T(rest, env, tail)          # the compiler's own bookkeeping at close: Pgm/Reuse.after_close (C03)
+    if isinstance(s, (ast.With, ast.Try)):
+        raise Unsupported('with / try statement in close()')
+    return None
+
+
+def translate_close(src_dir: str) -> str:
+    global METHODS, CFG_ATTRS, STATE_ATTRS, ORACLES, CFG_TYPE, LOCAL_ELT, EXTRA_PARAMS, MONAD, EXPR_HOOKS, STMT_SKIP, RECEIVERS, STMT_HOOKS
+    saved = (METHODS, CFG_ATTRS, STATE_ATTRS, ORACLES, CFG_TYPE, LOCAL_ELT, EXTRA_PARAMS, MONAD, EXPR_HOOKS, STMT_SKIP, RECEIVERS, STMT_HOOKS)
+    out = []
+    try:
+        mod = ast.parse(pathlib.Path(src_dir, 'pgmcompiler.py').read_text())
+        cls = [n for n in mod.body if isinstance(n, ast.ClassDef) and n.name == 'PGMCompiler']
+        if len(cls) != 1:
+            raise Unsupported('class PGMCompiler not found')
+        METHODS = {'close': ('method', [('filename', 'option string'), ('verbose', 'bool')], 'unit')}
+        CFG_ATTRS, STATE_ATTRS, ORACLES = {'filename', 'export_dir'}, {}, {}
+        CFG_TYPE, LOCAL_ELT, EXTRA_PARAMS, MONAD = 'cl_cfg', {}, '(is_dir__ : string -> bool) ', 'MCl'
+        EXPR_HOOKS, STMT_SKIP, RECEIVERS, STMT_HOOKS = [_h_cl], [], {'self'}, [_s_cl]
+        out.append('(* PGMCompiler.close, from pgmcompiler.py *)\nNotation cfg_filename := cl_filename.\nNotation cfg_export_dir := cl_export_dir.\n\n')
+        out.append(Tr(cls[0]).method('close') + '\n')
+    finally:
+        METHODS, CFG_ATTRS, STATE_ATTRS, ORACLES, CFG_TYPE, LOCAL_ELT, EXTRA_PARAMS, MONAD, EXPR_HOOKS, STMT_SKIP, RECEIVERS, STMT_HOOKS = saved
+    return ''.join(out)
+
+
 # ---- helpers.flatten / helpers.nest_level (C16): recursive functions, translated with the recursive call as a parameter
 _HL_ISLIST = ("BoolOp(op=And(), values=[Call(func=Name(id='isinstance'), args=[Name(id='x'), Tuple(elts=[Name(id='list'), Name(id='tuple')])], "
               "keywords=[]), UnaryOp(op=Not(), operand=Call(func=Name(id='isinstance'), args=[Name(id='x'), Tuple(elts=[Name(id='str'), "
@@ -2399,7 +2450,7 @@ def main(argv):
             elif g == 'SrcTn.v':
                 name, text = g, translate_tree_names(str(src_dir))
             elif g == 'SrcPa.v':
-                name, text = g, translate_persist(str(src_dir))
+                name, text = g, translate_persist(str(src_dir)) + translate_close(str(src_dir))
             elif g == 'SrcHl.v':
                 name, text = g, translate_helpers(str(src_dir))
             elif g == 'SrcDev.v':
